@@ -408,10 +408,13 @@ func runC03(c *mon.Ctx) {
 			execC03(c, "truncate", i, s.Bytes[:cut], k, r, "truncated-at-every-offset")
 			c.Count("truncation_offsets_tried")
 		}
-		// a truncated final packet is the end of the stream, not an error: w whole packets followed by the first bytes of the next
-		// one (at least the 193 bytes packet size detection looks at), every reader kind, explicit and detected size
-		for w := 1; w <= 3 && w < len(s.Packets); w++ {
-			for _, extra := range []int{5, 6, 100, 187} {
+		// a truncated final packet is the end of the stream, not an error: w whole packets (also none: the stream is nothing but a
+		// truncated packet) followed by the first bytes of the next one, every reader kind, explicit and detected size
+		for w := 0; w <= 3 && w < len(s.Packets); w++ {
+			for _, extra := range []int{1, 5, 6, 100, 187} {
+				if w == 1 && extra < 5 {
+					continue // 189..192 bytes: one packet of that size or a 188 byte packet and a tail, detection cannot know
+				}
 				cut := w*188 + extra
 				for _, rd := range []string{"seek", "bufio", "plain"} {
 					for _, ps := range []int{188, 0} {
